@@ -2,12 +2,14 @@ package checks
 
 import (
 	"fmt"
+	"net/url"
 	"sort"
 	"strings"
 	"sync"
 	"time"
 
 	"github.com/anishathalye/porcupine"
+	"google.golang.org/protobuf/encoding/protojson"
 	"google.golang.org/protobuf/proto"
 	"google.golang.org/protobuf/reflect/protoreflect"
 	"google.golang.org/protobuf/types/dynamicpb"
@@ -24,16 +26,18 @@ func init() { Registry["C17"] = c17 }
 
 func c17schema(pkg string) *spec.File {
 	f := &spec.File{Path: "c17/conc.proto", Package: pkg, GoImport: "lab/gen/c17c", GoName: "c17c"}
-	min1 := &validate.FieldRules{Type: &validate.FieldRules_String_{String_: &validate.StringRules{MinLen: proto.Uint64(1)}}}
+	// the only rule is an upper bound on payload: an all-default message is valid on every route, and
+	// a request can be rejected AFTER its fields were bound (over-long payload), not only before
+	max48 := &validate.FieldRules{Type: &validate.FieldRules_String_{String_: &validate.StringRules{MaxLen: proto.Uint64(48)}}}
 	reqFields := func() []*spec.Field {
-		return []*spec.Field{spec.F("id", 1, spec.String).With(func(a *spec.Ann) { a.Rules = min1 }), spec.F("payload", 2, spec.String), spec.F("n", 3, spec.Int64), spec.F("path_a", 4, spec.String)}
+		return []*spec.Field{spec.F("id", 1, spec.String), spec.F("payload", 2, spec.String).With(func(a *spec.Ann) { a.Rules = max48 }), spec.F("n", 3, spec.Int64), spec.F("path_a", 4, spec.String)}
 	}
 	f.Messages = []*spec.Message{
 		{Name: "EchoReq", Fields: reqFields()},
-		{Name: "EchoGetReq", Fields: []*spec.Field{spec.F("id", 1, spec.String).Q("id"), spec.F("payload", 2, spec.String).Q("payload"), spec.F("n", 3, spec.Int64).Q("n"), spec.F("path_a", 4, spec.String)}},
+		{Name: "EchoGetReq", Fields: []*spec.Field{spec.F("id", 1, spec.String).Q("id"), spec.F("payload", 2, spec.String).Q("payload").With(func(a *spec.Ann) { a.Rules = max48 }), spec.F("n", 3, spec.Int64).Q("n"), spec.F("path_a", 4, spec.String)}},
 		{Name: "EchoResp", Fields: append(reqFields(), spec.F("lab_seen_headers", 100, spec.String))},
 	}
-	f.Messages[2].Fields[0].Ann.Rules = nil
+	f.Messages[2].Fields[1].Ann.Rules = nil
 	in, get, out := "."+pkg+".EchoReq", "."+pkg+".EchoGetReq", "."+pkg+".EchoResp"
 	f.Services = []*spec.Service{
 		{Name: "AlphaService", BasePath: spec.S("/alpha"), Headers: []spec.Header{{Name: "X-Trace", Type: "string"}, {Name: "X-Alpha", Type: "string", Required: true}}, Methods: []*spec.Method{
@@ -51,30 +55,112 @@ func c17schema(pkg string) *spec.File {
 }
 
 type c17call struct {
-	Idx      int
-	Svc      string
-	RPC      string
-	ReqType  string
-	ID       string
-	Payload  string
-	N        int64
-	PathA    string
-	Hdr      [][2]string // per-call headers (WithHeader)
-	OmitOwn  string      // required header deliberately omitted ("" = none) → expect 400
-	CallCT   string
+	Idx     int
+	Kind    string // normal | omit-header | long | default | partial | raw-bad | raw-ok
+	Svc     string
+	RPC     string
+	ReqType string
+	ID      string
+	Payload string
+	N       int64
+	PathA   string
+	Hdr     [][2]string // per-call headers (WithHeader)
+	OmitOwn string      // required header deliberately omitted ("" = none) → expect 400
+	CallCT  string
+	Raw     map[string]any `json:"Raw,omitempty"` // hand-made HTTP request (malformed body / URL value)
+	Want    string         // ok | validation | st400
 }
 
-var c17routes = []struct {
+type c17route struct {
 	Svc, RPC, ReqType string
 	Required          [][2]string // header name -> valid value
 	HasPath           bool
-}{
-	{"AlphaService", "AlphaCreate", "EchoReq", [][2]string{{"X-Alpha", "a"}, {"X-M-Create", "7"}}, false},
-	{"AlphaService", "AlphaUpdate", "EchoReq", [][2]string{{"X-Alpha", "a"}, {"X-M-Update", "123e4567-e89b-12d3-a456-426614174000"}}, true},
-	{"AlphaService", "AlphaFetch", "EchoGetReq", [][2]string{{"X-Alpha", "a"}}, true},
-	{"AlphaService", "AlphaPatch", "EchoReq", [][2]string{{"X-Alpha", "a"}}, true},
-	{"BetaService", "BetaCreate", "EchoReq", [][2]string{{"X-Beta", "true"}}, false},
-	{"BetaService", "BetaRemove", "EchoGetReq", [][2]string{{"X-Beta", "false"}, {"X-M-Remove", "r"}}, true},
+	Verb, Path        string // path with %s for path_a
+}
+
+var c17routes = []c17route{
+	{"AlphaService", "AlphaCreate", "EchoReq", [][2]string{{"X-Alpha", "a"}, {"X-M-Create", "7"}}, false, "POST", "/alpha/items"},
+	{"AlphaService", "AlphaUpdate", "EchoReq", [][2]string{{"X-Alpha", "a"}, {"X-M-Update", "123e4567-e89b-12d3-a456-426614174000"}}, true, "PUT", "/alpha/items/%s"},
+	{"AlphaService", "AlphaFetch", "EchoGetReq", [][2]string{{"X-Alpha", "a"}}, true, "GET", "/alpha/items/%s"},
+	{"AlphaService", "AlphaPatch", "EchoReq", [][2]string{{"X-Alpha", "a"}}, true, "PATCH", "/alpha/items/%s/part"},
+	{"BetaService", "BetaCreate", "EchoReq", [][2]string{{"X-Beta", "true"}}, false, "POST", "/beta/things"},
+	{"BetaService", "BetaRemove", "EchoGetReq", [][2]string{{"X-Beta", "false"}, {"X-M-Remove", "r"}}, true, "DELETE", "/beta/things/%s"},
+}
+
+// c17kinds are the request kinds a workload mixes. Rejections happen at every stage of the
+// emitted middleware (headers, URL binding, body decoding, rule validation) and accepted requests
+// include ones that leave every field at its default, so state kept from an earlier request of the
+// same route (a recycled message, a cached table) shows in the echo.
+var c17kinds = []string{"normal", "normal", "normal", "normal", "normal", "normal", "normal", "normal", "omit-header", "omit-header", "long", "default", "default", "partial", "raw-bad", "raw-ok"}
+
+func c17mk(rt c17route, kind, id string, i int, rnd func() int64) c17call {
+	cl := c17call{Idx: i, Kind: kind, Svc: rt.Svc, RPC: rt.RPC, ReqType: rt.ReqType, ID: id, Payload: fmt.Sprintf("p%d-%x", i, rnd()), N: rnd() - (1 << 62), Want: "ok"}
+	if rt.HasPath {
+		cl.PathA = fmt.Sprintf("seg%d", i)
+	}
+	omit := ""
+	switch kind {
+	case "omit-header":
+		omit = rt.Required[int(uint64(rnd())%uint64(len(rt.Required)))][0]
+		cl.Want = "validation"
+	case "long":
+		cl.Payload = "ghost-" + id + "-" + strings.Repeat("x", 60)
+		cl.Want = "validation"
+	case "default":
+		cl.ID, cl.Payload, cl.N = "", "", 0
+	case "partial":
+		cl.Payload, cl.N = "", 0
+	}
+	cl.OmitOwn = omit
+	for _, kv := range rt.Required {
+		if kv[0] != omit {
+			cl.Hdr = append(cl.Hdr, kv)
+		}
+	}
+	cl.Hdr = append(cl.Hdr, [2]string{"X-Call", id})
+	if uint64(rnd())%3 == 0 {
+		cl.CallCT = "application/x-protobuf"
+	}
+	if kind == "raw-bad" || kind == "raw-ok" {
+		cl.CallCT = ""
+		var hdr []map[string]string
+		for _, kv := range cl.Hdr {
+			hdr = append(hdr, map[string]string{"K": kv[0], "V": kv[1]})
+		}
+		hdr = append(hdr, map[string]string{"K": "Content-Type", "V": "application/json"})
+		target := rt.Path
+		if rt.HasPath {
+			target = fmt.Sprintf(rt.Path, cl.PathA)
+		}
+		body := ""
+		q := url.Values{}
+		if rt.ReqType == "EchoGetReq" {
+			q.Set("id", cl.ID)
+			q.Set("payload", cl.Payload)
+			if kind == "raw-bad" {
+				q.Set("payload", "ghost-"+id)
+				q.Set("n", "not-a-number")
+			} else {
+				q.Set("n", fmt.Sprint(cl.N))
+			}
+			target += "?" + q.Encode()
+		} else {
+			if kind == "raw-bad" {
+				// fields first, then the syntax error: a decoder that fills the target as it goes has
+				// bound them by the time it fails
+				body = fmt.Sprintf(`{"id":%q,"payload":%q,"n":"12","pathA":`, cl.ID, "ghost-"+id)
+			} else {
+				// path_a is repeated in the body: a JSON body that does not mention a path-bound field
+				// wipes it (recorded under C02, mechanism body-bind-resets-url-fields)
+				body = fmt.Sprintf(`{"id":%q,"payload":%q,"n":"%d","pathA":%q}`, cl.ID, cl.Payload, cl.N, cl.PathA)
+			}
+		}
+		if kind == "raw-bad" {
+			cl.Want = "st400"
+		}
+		cl.Raw = map[string]any{"method": rt.Verb, "target": target, "hdr": hdr, "body": b64([]byte(body))}
+	}
+	return cl
 }
 
 func c17calls(c *Ctx, label string, n int) []c17call {
@@ -82,25 +168,36 @@ func c17calls(c *Ctx, label string, n int) []c17call {
 	var out []c17call
 	for i := 0; i < n; i++ {
 		rt := c17routes[r.Intn(len(c17routes))]
-		cl := c17call{Idx: i, Svc: rt.Svc, RPC: rt.RPC, ReqType: rt.ReqType, ID: fmt.Sprintf("%s-%d", label, i), Payload: fmt.Sprintf("p%d-%x", i, r.Int63()), N: r.Int63() - (1 << 62)}
-		if rt.HasPath {
-			cl.PathA = fmt.Sprintf("seg%d", i)
+		kind := c17kinds[r.Intn(len(c17kinds))]
+		out = append(out, c17mk(rt, kind, fmt.Sprintf("%s-%d", label, i), i, r.Int63))
+	}
+	return out
+}
+
+// c17sequences is the deterministic part of the workload: on every route, each kind of rejected
+// request is followed by requests that leave fields unset, on one client, one at a time.
+func c17sequences(c *Ctx, label string) []c17call {
+	r := c.Rng("c17seq:" + label)
+	var out []c17call
+	add := func(rt c17route, kind string) {
+		i := len(out)
+		out = append(out, c17mk(rt, kind, fmt.Sprintf("%s-%d", label, i), i, r.Int63))
+	}
+	for _, rt := range c17routes {
+		for _, rej := range []string{"long", "raw-bad", "omit-header", "normal"} {
+			add(rt, rej)
+			add(rt, "default")
+			add(rt, "partial")
+			add(rt, "raw-ok")
+			add(rt, "normal")
 		}
-		omit := ""
-		if r.Intn(8) == 0 {
-			omit = rt.Required[r.Intn(len(rt.Required))][0]
+	}
+	// and across routes: a rejected request on one route followed by defaults on every other one
+	for _, a := range c17routes {
+		add(a, "long")
+		for _, b := range c17routes {
+			add(b, "default")
 		}
-		cl.OmitOwn = omit
-		for _, kv := range rt.Required {
-			if kv[0] != omit {
-				cl.Hdr = append(cl.Hdr, kv)
-			}
-		}
-		cl.Hdr = append(cl.Hdr, [2]string{"X-Call", cl.ID})
-		if r.Intn(3) == 0 {
-			cl.CallCT = "application/x-protobuf"
-		}
-		out = append(out, cl)
 	}
 	return out
 }
@@ -116,7 +213,7 @@ func (o c17outcome) String() string { return o.Class + "/" + o.Echo + "/" + o.Se
 
 // c17: a request's outcome does not depend on other requests, concurrent or earlier.
 func c17(c *Ctx) {
-	c.R.Rule = "abstract case = (burst of random calls over all routes of a two-service schema with per-route different required headers) x parallelism {2, 8, 64} x GOMAXPROCS {2, 16} x repetition, each burst in a FRESH race-instrumented child process (lazily initialised package state is only racy on first use; validator construction is held open by a failpoint delay); " +
+	c.R.Rule = "abstract case = (burst of random calls over all routes of a two-service schema with per-route different required headers; request kinds: well-formed, all-default, partly default, rejected for a missing header / an over-long field after binding / a malformed body or URL value sent raw) x parallelism {2, 8, 64} x GOMAXPROCS {2, 16} x repetition, plus deterministic one-at-a-time sequences (every kind of rejection followed by default-valued requests on the same and on every other route, follow-ups re-issued alone in a fresh process), each burst in a FRESH race-instrumented child process (lazily initialised package state is only racy on first use; validator construction is held open by a failpoint delay); " +
 		"monitors: Go race detector log, offline history checker (exactly-once handler entry per call id, result = f(request), per-call header isolation, agreement with an isolated sequential execution in another fresh process), porcupine cross-check with a stateless per-call model; non-trivial = a burst completed and its history was checked"
 	c.R.Assume("stateless sequential specification: each call's result is a function of its own request and options; race detector sees only executed access pairs")
 	pkg := "c17.c"
@@ -219,9 +316,74 @@ func c17(c *Ctx) {
 		}
 		c.R.Decided(caseID)
 	})
+	// deterministic sequences, one call at a time on one client per service: every kind of rejected
+	// request followed by requests that leave fields unset; the follow-ups are also issued ALONE, each
+	// in a fresh process against a fresh server, and must give the same result
+	for _, gmp := range []int{1, 4} {
+		caseID := fmt.Sprintf("conc/sequence/gomaxprocs=%d", gmp)
+		if !c.Want(caseID) {
+			continue
+		}
+		label := fmt.Sprintf("seq-g%d", gmp)
+		calls := c17sequences(c, label)
+		raceLog := fmt.Sprintf("%s/race-c17-%s", c.Scratch, label)
+		res, _, err := c17run(bin, raceLog, gmp, 1, pkg, calls, reg)
+		c.R.Eval(len(calls))
+		if err != nil {
+			c.R.Violate(caseID, "burst-failed", err.Error(), map[string]any{"proto": protoText, "label": label})
+			continue
+		}
+		alone := make([]c17outcome, len(calls))
+		copy(alone, res[:len(calls)])
+		var pick []int
+		for i, cl := range calls {
+			if cl.Kind == "default" || cl.Kind == "partial" {
+				pick = append(pick, i)
+			}
+		}
+		if !c.Thorough() && len(pick) > 24 {
+			r := c.Rng("c17alone:" + label)
+			r.Shuffle(len(pick), func(a, b int) { pick[a], pick[b] = pick[b], pick[a] })
+			pick = pick[:24]
+		}
+		var amu sync.Mutex
+		failed := ""
+		plugin.Parallel(len(pick), 6, func(k int) {
+			i := pick[k]
+			one := calls[i]
+			one.Idx = 0
+			r1, _, err := c17run(bin, fmt.Sprintf("%s-alone%d", raceLog, i), gmp, 1, pkg, []c17call{one}, reg)
+			c.R.Eval(1)
+			amu.Lock()
+			defer amu.Unlock()
+			if err != nil {
+				failed = err.Error()
+				return
+			}
+			alone[i] = r1[0]
+		})
+		if failed != "" {
+			c.R.Inconclusive(caseID, "isolated-run-failed:"+failed)
+			continue
+		}
+		c.R.Count("calls_reissued_alone_in_fresh_process", len(pick))
+		mu.Lock()
+		totalCalls += len(calls)
+		mu.Unlock()
+		c17check(c, caseID, calls, res, alone, protoText, label)
+		n, reports := lab.RaceReports(raceLog)
+		c.R.Count("race_reports", n)
+		for _, r := range reports {
+			c.R.Violate(caseID, "race", raceSummary(r), map[string]any{"proto": protoText, "report": r, "label": label})
+		}
+		c.R.Decided(caseID)
+	}
 	c.R.Set("distinct_handler_entry_orderings", len(orderings))
 	c.R.Set("calls_checked", totalCalls)
-	c.R.Sample(map[string]any{"case": "conc/gomaxprocs=16/parallel=64", "calls_per_burst": callsPer, "routes": len(c17routes), "monitors": []string{"race detector", "exactly-once", "result=f(request)", "header isolation", "sequential agreement", "porcupine"}})
+	c.R.Sample(map[string]any{"case": "conc/gomaxprocs=16/parallel=64", "calls_per_burst": callsPer, "routes": len(c17routes), "request_kinds": c17kinds, "monitors": []string{"race detector", "exactly-once by call id", "result=f(request)", "header isolation", "sequential agreement", "alone-in-fresh-process agreement", "porcupine"}})
+	if seq := c17sequences(c, "sample"); len(seq) > 6 {
+		c.R.Sample(map[string]any{"case": "conc/sequence/gomaxprocs=1", "first_calls": seq[:6], "calls": len(seq)})
+	}
 }
 
 func raceSummary(r string) string {
@@ -275,7 +437,11 @@ func c17run(bin, raceLog string, gmp, par int, pkg string, calls []c17call, reg 
 		for _, kv := range cl.Hdr {
 			hdr = append(hdr, map[string]string{"K": kv[0], "V": kv[1]})
 		}
-		bcs = append(bcs, map[string]any{"client": pkg + "." + cl.Svc, "rpc": cl.RPC, "req_type": pkg + "." + cl.ReqType, "req": b64(c17msg(reg, pkg, cl)), "hdr": hdr, "callct": cl.CallCT})
+		bc := map[string]any{"client": pkg + "." + cl.Svc, "rpc": cl.RPC, "req_type": pkg + "." + cl.ReqType, "req": b64(c17msg(reg, pkg, cl)), "hdr": hdr, "callct": cl.CallCT}
+		if cl.Raw != nil {
+			bc["raw"] = cl.Raw
+		}
+		bcs = append(bcs, bc)
 	}
 	id := newID("b")
 	_, ev, err := ch.Do(map[string]any{"op": "burst", "id": id, "burst": map[string]any{"url": gs.URL, "srv": gs.ID, "calls": bcs, "parallel": par, "timeout_ms": 60000}}, 5*time.Minute, "burst_done")
@@ -295,6 +461,11 @@ func c17run(bin, raceLog string, gmp, par int, pkg string, calls []c17call, reg 
 		}
 		idx := int(rm["idx"].(float64))
 		o := c17outcome{}
+		setEcho := func(m *dynamicpb.Message) {
+			fs := respMD.Fields()
+			o.Echo = fmt.Sprintf("%s|%s|%d|%s", m.Get(fs.ByName("id")).String(), m.Get(fs.ByName("payload")).String(), m.Get(fs.ByName("n")).Int(), m.Get(fs.ByName("path_a")).String())
+			o.Seen = m.Get(fs.ByName("lab_seen_headers")).String()
+		}
 		switch {
 		case rm["panic"] != nil:
 			o.Class = "panic:" + fmt.Sprint(rm["panic"])
@@ -305,40 +476,51 @@ func c17run(bin, raceLog string, gmp, par int, pkg string, calls []c17call, reg 
 			if to, _ := rm["timeout"].(bool); to {
 				o.Class = "timeout"
 			}
+		case rm["status"] != nil:
+			st := int(rm["status"].(float64))
+			o.Class = fmt.Sprintf("st%d", st)
+			if st == 200 {
+				m := dynamicpb.NewMessage(respMD)
+				if err := protojson.Unmarshal(unb64(fmt.Sprint(rm["body"])), m); err != nil {
+					o.Class = "st200-undecodable-body"
+				} else {
+					o.Class = "ok"
+					setEcho(m)
+				}
+			}
 		default:
 			o.Class = "ok"
 			m := dynamicpb.NewMessage(respMD)
 			_ = proto.Unmarshal(unb64(fmt.Sprint(rm["resp"])), m)
-			fs := respMD.Fields()
-			o.Echo = fmt.Sprintf("%s|%s|%d|%s", m.Get(fs.ByName("id")).String(), m.Get(fs.ByName("payload")).String(), m.Get(fs.ByName("n")).Int(), m.Get(fs.ByName("path_a")).String())
-			o.Seen = m.Get(fs.ByName("lab_seen_headers")).String()
+			setEcho(m)
 		}
 		out[idx] = o
 	}
-	// handler-entry ordering fingerprint + exactly-once bookkeeping is done by the caller from Echo ids;
-	// here we fingerprint the order of handler entries by rpc (first 24)
+	// handler-entry ordering fingerprint (first 24 entries by rpc) and per-call-id entry counts: every
+	// call carries a unique X-Call header, which the recording handler logs
 	var order []string
-	counts := map[string]int{}
+	perCall := map[string]int{}
 	for _, h := range oas.L(ev["handlers"]) {
 		hm := oas.M(h)
 		if len(order) < 24 {
 			order = append(order, oas.S(hm["rpc"])[strings.LastIndex(oas.S(hm["rpc"]), ".")+1:])
 		}
-		counts[oas.S(hm["req"])]++
-	}
-	for k, n := range counts {
-		if n > 1 {
-			// duplicated handler entry for identical request bytes (ids are unique per call)
-			for i := range out {
-				if out[i].Class == "ok" {
-					_ = k
-				}
+		id := ""
+		for _, kv := range strings.Split(oas.S(hm["seen_headers"]), ";") {
+			if strings.HasPrefix(strings.ToLower(kv), "x-call=") {
+				id = kv[len("x-call="):]
 			}
-			out = append(out, c17outcome{Class: fmt.Sprintf("DUPLICATE-HANDLER-ENTRY x%d", n)})
 		}
+		perCall[id]++
 	}
-	entries := len(oas.L(ev["handlers"]))
-	out = append(out, c17outcome{Class: fmt.Sprintf("entries=%d", entries)})
+	var ids []string
+	for id := range perCall {
+		ids = append(ids, id)
+	}
+	sort.Strings(ids)
+	for _, id := range ids {
+		out = append(out, c17outcome{Class: "entry", Echo: id, Seen: fmt.Sprint(perCall[id])})
+	}
 	return out, strings.Join(order, ","), nil
 }
 
@@ -350,26 +532,23 @@ func c17check(c *Ctx, caseID string, calls []c17call, burst, seq []c17outcome, p
 		}
 		return m
 	}
-	okCalls := 0
+	byID := map[string]int{}
 	for i, cl := range calls {
+		byID[cl.Hdr[len(cl.Hdr)-1][1]] = i
 		b := burst[i]
 		// expectation from the stateless model
-		wantClass := "ok"
-		if cl.OmitOwn != "" {
-			wantClass = "validation"
-		}
-		if b.Class != wantClass {
-			c.R.Violate(caseID, "outcome-class", "want "+wantClass+" got "+strings.SplitN(b.Class, ":", 2)[0], rp(i, nil))
+		if b.Class != cl.Want {
+			c.R.Violate(caseID, "outcome-class", cl.Kind+": want "+cl.Want+" got "+strings.SplitN(b.Class, ":", 2)[0], rp(i, nil))
 			continue
 		}
 		if b.Class == "ok" {
-			okCalls++
 			wantEcho := fmt.Sprintf("%s|%s|%d|%s", cl.ID, cl.Payload, cl.N, cl.PathA)
 			if b.Echo != wantEcho {
-				c.R.Violate(caseID, "result-not-function-of-request", "", rp(i, map[string]any{"expected_echo": wantEcho}))
+				c.R.Violate(caseID, "result-not-function-of-request", cl.Kind, rp(i, map[string]any{"expected_echo": wantEcho}))
 			}
 			// header isolation: own X-Call present, nobody else's
-			if !strings.Contains(b.Seen, "X-Call="+cl.ID+";") {
+			own := cl.Hdr[len(cl.Hdr)-1][1]
+			if !strings.Contains(b.Seen, "X-Call="+own+";") {
 				c.R.Violate(caseID, "per-call-header-lost", "", rp(i, nil))
 			}
 			if strings.Count(b.Seen, "X-Call=") != 1 {
@@ -378,6 +557,22 @@ func c17check(c *Ctx, caseID string, calls []c17call, burst, seq []c17outcome, p
 			for _, kv := range cl.Hdr {
 				if !strings.Contains(strings.ToLower(b.Seen), strings.ToLower(kv[0])+"="+strings.ToLower(kv[1])+";") {
 					c.R.Violate(caseID, "per-call-header-lost", strings.ToLower(kv[0][:3]), rp(i, nil))
+				}
+			}
+			// nothing but the call's own controlled headers (a header of another call or route leaking in)
+			for _, kv := range strings.Split(b.Seen, ";") {
+				k := strings.ToLower(strings.SplitN(kv, "=", 2)[0])
+				if k == "" || k == "content-type" {
+					continue
+				}
+				found := false
+				for _, h := range cl.Hdr {
+					if strings.ToLower(h[0]) == k {
+						found = true
+					}
+				}
+				if !found {
+					c.R.Violate(caseID, "foreign-header-seen", "", rp(i, map[string]any{"header": kv}))
 				}
 			}
 			wantCT := "application/json"
@@ -392,21 +587,37 @@ func c17check(c *Ctx, caseID string, calls []c17call, burst, seq []c17outcome, p
 			c.R.Violate(caseID, "differs-from-isolated-execution", "", rp(i, nil))
 		}
 	}
-	// bookkeeping entries appended by c17run
+	// exactly-once: the handler log of the burst, keyed by the unique X-Call id
+	entered := map[string]int{}
 	for _, extra := range burst[len(calls):] {
-		if strings.HasPrefix(extra.Class, "DUPLICATE") {
-			c.R.Violate(caseID, "handler-entered-twice", "", map[string]any{"proto": protoText, "burst": label, "detail": extra.Class})
+		if extra.Class == "entry" {
+			n := 0
+			fmt.Sscan(extra.Seen, &n)
+			entered[extra.Echo] = n
 		}
-		if strings.HasPrefix(extra.Class, "entries=") && extra.Class != fmt.Sprintf("entries=%d", okCalls) {
-			c.R.Violate(caseID, "handler-entries-differ-from-dispatched-calls", "", map[string]any{"proto": protoText, "burst": label, "handler_entries": extra.Class, "ok_calls": okCalls})
+	}
+	for id, n := range entered {
+		i, ok := byID[id]
+		switch {
+		case !ok:
+			c.R.Violate(caseID, "handler-entered-for-unknown-call", "", map[string]any{"proto": protoText, "burst": label, "x_call": id})
+		case n > 1:
+			c.R.Violate(caseID, "handler-entered-twice", "", rp(i, map[string]any{"entries": n}))
+		case calls[i].Want != "ok":
+			c.R.Violate(caseID, "handler-entered-for-rejected-call", calls[i].Kind, rp(i, nil))
+		}
+	}
+	for i, cl := range calls {
+		if cl.Want == "ok" && burst[i].Class == "ok" && entered[cl.Hdr[len(cl.Hdr)-1][1]] == 0 {
+			c.R.Violate(caseID, "handler-not-entered", "", rp(i, nil))
 		}
 	}
 	// porcupine cross-check: stateless model, partitioned per call
 	type in struct{ want string }
 	var ops []porcupine.Operation
 	for i, cl := range calls {
-		want := "validation//"
-		if cl.OmitOwn == "" {
+		want := cl.Want + "//"
+		if cl.Want == "ok" {
 			want = "ok/" + fmt.Sprintf("%s|%s|%d|%s", cl.ID, cl.Payload, cl.N, cl.PathA)
 		}
 		got := burst[i].Class + "/" + burst[i].Echo
